@@ -13,11 +13,13 @@ namespace Driver.HTLedger
       bulk operation)  ag=size af=idx bg=size bf=idx (pool traffic observed in A's / B's pools)
     Answer: result | A summary | B summary | led k=… kb=… x=… xb=… el=… dc=… dd=…
       k / kb = number / bytes of the blocks of known purpose (bucket arrays, BucketParams, crews), x / xb = pool buffers,
-      el = live element objects, dc / dd = constructor / destructor runs during the operation -/
+      el = live element objects, dc / dd = constructor / destructor runs during the operation,
+      pb = live memory-pool blocks of LimP4 (= non-empty buckets) -/
 structure St where
   cfg : Cfg
   fam : Nat
   counted : Bool
+  pb : Bool
   s : Sys
 
 def hf (s : St) : Nat → Nat := hashFam s.fam
@@ -31,7 +33,8 @@ def init (args : List String) : St :=
   let cfg : Cfg := { sp := sp, cat := cat, assign := kv args "assign" "1" == "1", hdr := nat! (kv args "hdr" "24"),
                      bsz := nat! (kv args "bsz" "8"), psz := nat! (kv args "psz" "8"), csz := nat! (kv args "csz" "0"),
                      chained := kv args "chained" "0" == "1" }
-  { cfg := cfg, fam := nat! (kv args "hash" "3"), counted := kv args "counted" "0" == "1", s := Sys.init cfg }
+  { cfg := cfg, fam := nat! (kv args "hash" "3"), counted := kv args "counted" "0" == "1",
+    pb := kv args "pb" "0" == "1", s := Sys.init cfg }
 
 structure Toks where
   f : Flt := {}
@@ -85,7 +88,10 @@ def ledStr (st : St) (s0 s1 : Sys) : String :=
   let dd := countEv (fun e => match e with | .destroy _ => true | _ => false) newEvs
   let cnt := if st.counted then s!"el={s1.elems.length} dc={if st.cfg.chained then "~" else toString dc} dd={if st.cfg.chained then "~" else toString dd}"
              else "el=~ dc=~ dd=~"
-  s!" | led k={k} kb={kb} x={x} xb={xb} {cnt}"
+  -- LimP4: one memory-pool block per non-empty bucket (determined by the table; not a manager block)
+  let nonEmpty (t : Table) : Nat := (t.gens.map (fun g => (g.bs.filter (fun b => !b.items.isEmpty)).length)).foldl (· + ·) 0
+  let pbs := if st.pb then toString (nonEmpty s1.a.t + nonEmpty s1.b.t) else "~"
+  s!" | led k={k} kb={kb} x={x} xb={xb} {cnt} pb={pbs}"
 
 def tail (st : St) (s0 s1 : Sys) : String :=
   s!" | A {Driver.HashTable.summary st.cfg.sp s1.a.t} | B {Driver.HashTable.summary st.cfg.sp s1.b.t}" ++ ledStr st s0 s1
